@@ -210,7 +210,8 @@ def run(rep, tier, seed, replay):
         behaviours += from_sim(sims, len(behaviours) + 1)
         lap('design + simulation ' + mc[:-4])
     # the open findings must stay reachable in the model (otherwise the model lost them)
-    for cfg, prop in (('MC_MetadataFSM_finding.cfg', 'A_RS_GroupEpoch'), ('MC_MetadataFSM_finding2.cfg', 'A_RS_GroupAsg')):
+    for cfg, prop in (('MC_MetadataFSM_finding.cfg', 'A_RS_GroupEpoch'), ('MC_MetadataFSM_finding2.cfg', 'A_RS_GroupAsg'),
+                      ('MC_MetadataFSM_finding3.cfg', 'A_RS_Started')):
         fres = core.tlc_check('MC_MetadataFSM.tla', cfg, timeout=600, workers=4)
         rep.cov['design_checks'].append({'config': cfg[:-4], 'violated': fres['violated'],
                                          'note': 'expected: %s violated (open known finding reachable in the model)' % prop})
